@@ -145,41 +145,7 @@ class RdmsOps:
                          f'{opname} raised {type(e).__name__}: {e} on admissible arguments')
 
     def _plain_guard(self, opname, **named):
-        """the caller's own lists / arrays handed to an operation (values to select, a new order, a permutation): unchanged by
-        the call, and not wired into any object -- the caller reusing its list afterwards must not reach a result"""
-        from .fp import fp_value
-        if self.pool.prop != 'C12':
-            return lambda outcome='returned': None       # (the argument clause belongs to C12)
-        held = {k: v for k, v in named.items() if isinstance(v, (list, np.ndarray)) and len(v) > 0}
-        snaps = {k: (type(v).__name__, getattr(v, 'dtype', None), fp_value(v)) for k, v in held.items()}
-
-        def after(outcome='returned'):
-            for k, v in held.items():
-                if (type(v).__name__, getattr(v, 'dtype', None), fp_value(v)) != snaps[k]:
-                    self.pool.report('C12', 'plain_argument', f'argument-changed:{opname}:{k}:{outcome}',
-                                     f'{opname} changed the caller\'s {k} from {snaps[k][2]} to {fp_value(v)}')
-                else:
-                    self.ctx.probe('plain_argument_kept:' + opname)
-            if outcome != 'returned':
-                return
-            edited = False
-            for k, v in held.items():
-                try:
-                    if len(v) > 1 and norm(v[0]) != norm(v[-1]):
-                        first = v[0]
-                        v[0] = v[-1]
-                        v[-1] = first
-                        edited = True
-                    elif isinstance(v, list):
-                        v.append(v[0])
-                        edited = True
-                except (ValueError, TypeError):
-                    pass          # read-only array
-            self._n_edits = getattr(self, '_n_edits', 0) + 1
-            if edited and self._n_edits % 2 == 0:
-                self.pool.sweep(f'{opname}:caller-edits-own-argument')
-                self.ctx.probe('caller_edit_swept:' + opname)
-        return after
+        return self.pool.plain_guard(opname, **named)
 
     def _finish(self, opname, res_obj, sem, parents, order=('seq', 'seq'), args=()):
         s = self.pool.add(res_obj, 'rdms', sem, opname, parents)
